@@ -25,6 +25,13 @@ var schedAssumptions = []string{
 var coarseAssumption = "actor-level exploration: thread switches between messages (HandleEnvelop entry), at blocking points, thread exits and explicit driver yields; preemption inside a message handler is not explored here (handler atomicity per actor is what C01 establishes in fine mode)"
 
 var properties = map[string]Prop{
+	"C07": {
+		Parts:       []Part{{Harness: "c07"}},
+		Level:       "model_checking",
+		QuickBudget: 150, ThoroughBudget: 1500,
+		Rule: "all strings over {Start, Stop, Stop(0), cancel} up to length 3 (4 thorough) on three actor trees, explored over message-level schedules incl. the Stop(0)-timer race; plus pairs of such strings on two threads explored at sync/atomic granularity up to the preemption bound; oracle: linearizable w.r.t. the ready->started->stopped machine, every call returns, clean stop leaves no registered actor and no thread; distinct_nontrivial = distinct result vectors per scenario",
+		Assumptions: schedAssumptions,
+	},
 	"C05": {
 		Parts:       []Part{{Harness: "c05"}},
 		Level:       "model_checking",
